@@ -29,6 +29,8 @@ from .value import Foreign, RealValue, Value, from_value, to_value, unwrap_forei
 CTX_NAME = '__ctx__'
 REAL_NAME = '__fpy_real'
 """namespace symbol bound to the real context ``REAL``"""
+CAPTURE_PREFIX = '__fpy_capture_'
+"""namespace prefix of a captured value that is re-materialized on every call"""
 
 
 def _is_integer(x: Float | Fraction) -> bool:
@@ -43,6 +45,16 @@ def _is_integer(x: Float | Fraction) -> bool:
 def _neg_zero() -> Float:
     """Constructs an exact negative zero (not representable as a `Fraction`)."""
     return Float(s=True, exp=0, c=0)
+
+def _has_list(x) -> bool:
+    """Does a captured value hold a list (the only mutable FPy value)?"""
+    match x:
+        case list():
+            return True
+        case tuple():
+            return any(_has_list(v) for v in x)
+        case _:
+            return False
 
 def _cvt_float(x: Value):
     match x:
@@ -557,6 +569,7 @@ def make_namespace() -> dict[str, object]:
         '__fpy_eq': _eval_eq,
         '__fpy_attribute': _eval_attribute,
         '__fpy_ordered': _eval_ordered,
+        '__fpy_to_value': to_value,
         REAL_NAME: REAL,
     }
 
@@ -609,7 +622,12 @@ class BytecodeCompiler(Visitor):
         # add free variables to the namespace
         for var in self.func.free_vars:
             name = str(var)
-            namespace[name] = to_value(self.env[name])
+            val = to_value(self.env[name])
+            if _has_list(val):
+                # bound afresh by the function's prologue (see `_visit_function`)
+                namespace[CAPTURE_PREFIX + name] = val
+            else:
+                namespace[name] = val
         # add foreign values to the namespace
         namespace.update(self.foreign_vals)
         # return the function object
@@ -1134,6 +1152,24 @@ class BytecodeCompiler(Visitor):
 
         body = self._visit_block(func.body, None)
         attrs = self._location_to_attributes(func.loc)
+
+        # A captured list is converted once, at compile time, but FPy lists are
+        # mutable: every call starts from a fresh copy, so a write through an
+        # alias (or by the caller, to a returned list) cannot outlive the call.
+        #     <name> = __fpy_to_value(__fpy_capture_<name>)
+        prologue: list[pyast.stmt] = []
+        for name in sorted(str(var) for var in func.free_vars):
+            if name in self.env and _has_list(self.env[name]):
+                fresh = pyast.Call(
+                    func=pyast.Name(id='__fpy_to_value', ctx=pyast.Load(), **attrs),
+                    args=[pyast.Name(id=CAPTURE_PREFIX + name, ctx=pyast.Load(), **attrs)],
+                    keywords=[], **attrs,
+                )
+                prologue.append(pyast.Assign(
+                    targets=[pyast.Name(id=name, ctx=pyast.Store(), **attrs)],
+                    value=fresh, type_comment=None, **attrs,
+                ))
+        body = prologue + body
 
         ctx_arg = pyast.arg(arg=CTX_NAME, annotation=None, type_comment=None, **attrs)
         py_args = pyast.arguments(
